@@ -43,12 +43,22 @@ def toggle_histories(ctx, P, n):
                     flagbad.append((gr, k, "non-alternation reports True"))
             lines = G.grammar_wire([tuple(r) for r in gr])
             exp = []
+            slow = False
             for s in strings:
                 for i in range(len(s) + 1):
-                    py = lib.py_lparse(P, rules[0], s, i, full=False)
+                    # a case on which the real code needs more than a few CPU seconds is a matter for C12 (work bound, known
+                    # finding F14): the grammar is dropped here, and not sent to the model either
+                    py = ec.with_budget(ec.CASE_BUDGET_S, lambda: lib.py_lparse(P, rules[0], s, i, full=False), None)
+                    if py is None:
+                        slow = True
+                        break
                     cl = ec.case_lines("ends", s, i)[0]
                     lines.append(cl)
                     exp.append((s, i, cl, py))
+                if slow:
+                    break
+            if slow:
+                break
             blocks.append(lines)
             exps.append(([tuple(r) for r in gr], exp))
     outs = lib.run_driver_parallel(blocks)
